@@ -744,8 +744,13 @@ def plan_C18(ctx):
         "OffsMod = 32 explores every target offset up to the wrap boundary on the model; every (URI, offset, span) is executed on the real "
         "AdjustOffs / Short / Long / Flat / Truncate (drift); drifted and sampled real results are judged by TLC (Judge_URI.tla: "
         "RelocateReal, ViewsReal). Known finding: views of a tel: URI with a password.")
-    for adjcfg in ("MC_URIAdj.cfg", "MC_URIAdj_core.cfg"):
-        r = vlib.run_tlc("MC_URIAdj", adjcfg, workers=8, timeout=1500)
+    adjcfgs = ["MC_URIAdj.cfg", "MC_URIAdj_core.cfg"]
+    if not ctx.quick:   # one more atom in both alphabets
+        adjcfgs += [("MC_URIAdj_len5.cfg", open(os.path.join(V, "spec", "MC_URIAdj.cfg")).read().replace("MaxLen = 4", "MaxLen = 5")),
+                    ("MC_URIAdj_core_len6.cfg", open(os.path.join(V, "spec", "MC_URIAdj_core.cfg")).read().replace("MaxLen = 5", "MaxLen = 6"))]
+    for adjcfg in adjcfgs:
+        r = vlib.run_tlc("MC_URIAdj", adjcfg, workers=8, timeout=7200)
+        if isinstance(adjcfg, tuple): adjcfg = adjcfg[0]
         if not r["ok"]: raise Machinery("TLC failed on MC_URIAdj:\n%s" % r["tail"])
         ctx.states += r["distinct"]; ctx.transitions += r["generated"]
         drift_out = os.path.join(r["dir"], "drift.ndjson")
